@@ -13,7 +13,7 @@
    wrong bytes at the next read; loss at the very end of the stream is covered by the
    separate state invariants ("what was taken from the source and not yet returned is
    still stored") in Properties.v. *)
-From Coq Require Import List NArith.
+From Coq Require Import List NArith ZArith.
 From PV Require Import C17.Model.
 Import ListNotations.
 Local Open Scope N_scope.
@@ -45,6 +45,10 @@ Definition applicable (k : kind) (o : op) : Prop :=
   | KBuf, (OAdd _ | OGet _ | OFits _ | OProt _) => True
   | KBuf, OSeek _ st => st = true
   | KBuf, ORead _ _ => False
+  (* OSeekX carries the seeks OSeek cannot express: a negative offset, or a whence other than START *)
+  | KBuf, OSeekX p wh => (p < 0)%Z /\ wh = 0
+  | (KBio | KSsw), OSeekX p wh => wh <> 0 \/ (p < 0)%Z
+  | (KSrw | KSio), OSeekX p wh => wh = 1 \/ (wh = 0 /\ (p < 0)%Z)
   | _, (OSeek _ _ | OProt _ | ORead _ _) => True
   | _, _ => False
   end.
@@ -57,6 +61,8 @@ Fixpoint buf_spec (s : list N) (c : N) (tr : list (op * res)) : Prop :=
   | (OGet n, RData d) :: t => bytes_of d = slice s c n /\ buf_spec s (c + dlen d) t
   | (OSeek p true, RBool true) :: t => buf_spec s p t
   | (OSeek p true, RBool false) :: t => buf_spec s c t
+  | (OSeekX p 0, RBool true) :: t => (0 <= p)%Z /\ buf_spec s (Z.to_N p) t
+  | (OSeekX p 0, RBool false) :: t => buf_spec s c t
   | (OProt _, RNone) :: t | (OProt _, RRaise) :: t | (OFits _, RBool _) :: t => buf_spec s c t
   | _ => False
   end.
@@ -68,6 +74,10 @@ Definition read_ok (len c : N) (n : option N) (d : data) : Prop :=
 
 Definition seek_target (c p : N) (start : bool) : N := if start then p else c + p.
 
+(* the absolute offset a seek(p, whence) asks for; it may be negative *)
+Definition seek_target_z (len c : N) (p : Z) (wh : N) : Z :=
+  if wh =? 0 then p else if wh =? 1 then (Z.of_N c + p)%Z else (Z.of_N len + p)%Z.
+
 Fixpoint wrap_spec (len : N) (c : N) (tr : list (op * res)) : Prop :=
   match tr with
   | [] => True
@@ -78,6 +88,12 @@ Fixpoint wrap_spec (len : N) (c : N) (tr : list (op * res)) : Prop :=
   (* io style: the new position is returned; success = it is the requested one *)
   | (OSeek p st, RNum r) :: t =>
       wrap_spec len (if r =? seek_target c p st then r else c) t
+  (* any integer offset, any whence: success is possible only for an offset >= 0 *)
+  | (OSeekX p wh, RBool true) :: t =>
+      (0 <= seek_target_z len c p wh)%Z /\ wrap_spec len (Z.to_N (seek_target_z len c p wh)) t
+  | (OSeekX p wh, RBool false) :: t => wrap_spec len c t
+  | (OSeekX p wh, RNum r) :: t =>
+      wrap_spec len (if (Z.of_N r =? seek_target_z len c p wh)%Z then r else c) t
   | (OProt _, RNone) :: t | (OProt _, RRaise) :: t => wrap_spec len c t
   | _ => False
   end.
@@ -87,13 +103,16 @@ Definition unread (b : sbuf) : data :=
   if b_hr b then ddrop (b_pos b) (b_buf b) else b_buf b.
 
 (* the cursor of the reference after an accepted history *)
-Fixpoint spec_cursor (c : N) (tr : list (op * res)) : N :=
+Fixpoint spec_cursor (len c : N) (tr : list (op * res)) : N :=
   match tr with
   | [] => c
-  | (ORead _ _, RData d) :: t | (OGet _, RData d) :: t => spec_cursor (c + dlen d) t
-  | (OSeek p st, RBool true) :: t => spec_cursor (seek_target c p st) t
-  | (OSeek p st, RNum r) :: t => spec_cursor (if r =? seek_target c p st then r else c) t
-  | _ :: t => spec_cursor c t
+  | (ORead _ _, RData d) :: t | (OGet _, RData d) :: t => spec_cursor len (c + dlen d) t
+  | (OSeek p st, RBool true) :: t => spec_cursor len (seek_target c p st) t
+  | (OSeek p st, RNum r) :: t => spec_cursor len (if r =? seek_target c p st then r else c) t
+  | (OSeekX p wh, RBool true) :: t => spec_cursor len (Z.to_N (seek_target_z len c p wh)) t
+  | (OSeekX p wh, RNum r) :: t =>
+      spec_cursor len (if (Z.of_N r =? seek_target_z len c p wh)%Z then r else c) t
+  | _ :: t => spec_cursor len c t
   end.
 
 (* the stream accepted by add() after a history (bare buffer) *)
@@ -117,6 +136,9 @@ Fixpoint seeks_in_sync (k : kind) (ops : list op) (w : wst) : Prop :=
   | o :: t =>
       match o with
       | OSeek p true => fst (buf_seek p (w_buf w)) = true -> synced w = true
+      (* io-style result of StreamableSourceWrapper: a relative seek "succeeds" when the (possibly stale)
+         position happens to be the requested offset *)
+      | OSeekX p wh => match k with KSsw => synced w = true | _ => True end
       | _ => True
       end /\ seeks_in_sync k t (snd (step k o w))
   end.
